@@ -404,11 +404,30 @@ func runChildJobs(c *Ctx, jobs []childJob) {
 	outs := runChildren(hcs, 8*time.Second)
 	// a child killed by the watchdog while twelve of them share the machine may just have been slow: give it
 	// the machine for itself before calling it a hang
+	// The second chances are given one at a time and share a budget: six calls that still do not return with the
+	// machine to themselves settle it, and so do four minutes of waiting. Calls left over then keep their first
+	// verdict if a hang was confirmed, and are let go otherwise (they were slow next to eleven others; nothing is
+	// known about them alone).
+	confirmed, began := 0, time.Now()
 	for i := range outs {
 		if outs[i].killed && !jobs[i].known {
 			// (worlds of the K-C04-1 shape are expected to run away: no second, longer wait for those)
+			if confirmed >= 6 {
+				continue
+			}
+			if time.Since(began) > 4*time.Minute {
+				if confirmed == 0 {
+					outs[i] = childOutcome{}
+					jobs[i].post = nil
+					c.Hit("child-slow-not-retried")
+				}
+				continue
+			}
 			r, err, killed := isolatedTimed(hcs[i], 45*time.Second)
 			outs[i] = childOutcome{r, err, killed}
+			if killed || err != nil {
+				confirmed++ // still no normal return (killed again, or the process died of its runaway recursion)
+			}
 		}
 	}
 	for i, j := range jobs {
